@@ -31,6 +31,12 @@ def gen_cfg(rng, scale=None, gammas=GAMMA_NAMES, kappas=(1e-6, 1e-4, 1e-4, 1e-4,
         limit_sigma=rng.choice([False, False, True]),
         gamma=rng.choice(list(gammas)),
     )
+    if gammas is GAMMA_NAMES and rng.random() < 0.12:
+        # a constant callback drawn log-uniformly: spreads the variance factor 1 - share*delta over (-inf, 1], so that the
+        # window (0, kappa) just above the floor is hit too (kappa 1e-2 / 1e-3 preferred for that)
+        cfg["gamma"] = f"const:{10 ** rng.uniform(-0.5, 2.5):.6g}"
+        if rng.random() < 0.6:
+            cfg["kappa"] = rng.choice([1e-2, 1e-2, 1e-3])
     return cfg
 
 
